@@ -26,6 +26,11 @@ func init() {
 		params(c, &p)
 		c18Decode(r, p.Code, c18Table())
 	})
+	scenario("C18", "readerbyte", func(r *core.Run, c core.Case) {
+		var p struct{ Byte int }
+		params(c, &p)
+		c18ReaderByte(r, p.Byte)
+	})
 	scenario("C18", "header", func(r *core.Run, c core.Case) {
 		var p struct{ DictCap int }
 		params(c, &p)
@@ -134,6 +139,31 @@ type sinkBuf struct{ b []byte }
 
 func (s *sinkBuf) Write(p []byte) (int, error) { s.b = append(s.b, p...); return len(p), nil }
 
+// c18ReaderByte: a real .xz stream whose block header carries dictionary byte b (header CRC
+// re-sealed) is given to the xz reader: accepted iff b <= 40. Codes 29..40 would make the
+// reader allocate 96 MiB .. 4 GiB and are skipped (counted).
+func c18ReaderByte(r *core.Run, b int) {
+	if b > 28 && b <= 40 {
+		r.Count("reader_codes_skipped_large_allocation", 1)
+		return
+	}
+	cs := core.MkCase("C18", "readerbyte", map[string]int{"Byte": b})
+	plain := []byte("dictionary size byte probe")
+	lz := ref.EncodeLZMA2Simple(plain, ref.Props{LC: 3, LP: 0, PB: 2}, 100)
+	data := ref.EncodeXZStream(ref.CheckCRC32, []ref.XZBlockSpec{{LZMA2: lz, Plain: plain, DictCode: byte(b)}})
+	out, err, _, pan := xzDecode(data, 4096, false)
+	switch {
+	case pan != nil:
+		r.Violate(cs, "reader panic on dictionary byte", fmt.Sprintf("block header dictionary byte %#02x", b), pan.Value, "accept (<=40) or reject")
+	case b <= 40 && (errClass(err) != "EOF" || string(out) != string(plain)):
+		r.Violate(cs, "reader rejects valid dictionary byte", fmt.Sprintf("block header dictionary byte %d", b), errStr(err), "decodes")
+	case b > 40 && (err == nil || errClass(err) == "EOF"):
+		r.Violate(cs, "reader accepts invalid dictionary byte", fmt.Sprintf("block header dictionary byte %#02x (header CRC re-sealed)", b), fmt.Sprintf("%d bytes, %s", len(out), errStr(err)), "an error: only codes 0..40 are valid")
+	}
+	r.Eval(core.Hash("rdbyte", b <= 40, errClass(err)))
+	r.Nontrivial(core.Hash("rdbyte", b <= 40, errClass(err)))
+}
+
 func runC18(r *core.Run) {
 	t := c18Table()
 	r.Rule = "complete enumeration: EncodeDictCap(n) for every n in 1..2^32-1 (sharded ranges), DecodeDictCap(c) for every byte c, plus the dictionary byte of real block headers for DictCap at every code boundary (-1,0,+1) up to 64 MiB; non-trivial = distinct (result) classes: one per code interval hit / per decode result"
@@ -145,6 +175,9 @@ func runC18(r *core.Run) {
 	// all 256 code bytes
 	for c := 0; c < 256; c++ {
 		c18Decode(r, c, t)
+	}
+	for c := 0; c < 256; c++ {
+		c18ReaderByte(r, c)
 	}
 	r.Sample(map[string]interface{}{"DecodeDictCap": []int{0, 40, 41, 255}})
 	// all capacities, sharded
